@@ -110,6 +110,34 @@ def _run_one(args):
           or [e[:200] for e in errors[:2]]}
 
 
+def _reformat_twin(prop):
+  """Benign twin applied to every property: every consulted .py file is
+  re-rendered with ast.unparse (comments dropped, layout and quoting
+  normalised, all line numbers shifted).  Verdicts must not change."""
+  import ast
+  base = core.Ctx()
+  core.run_rules(base, prop)
+  overlay = {}
+  for rel in sorted(base.files_read):
+    if rel.endswith(".py") and base.exists(rel):
+      try:
+        overlay[rel] = ast.unparse(ast.parse(base.read(rel))) + "\n"
+      except SyntaxError:
+        pass
+  for fn in base._cache.get("cleanup", []):
+    fn()
+  ctx = core.Ctx(overlay=overlay)
+  errors, _ = core.run_rules(ctx, prop)
+  viol, kn, good = core.decide(ctx, prop, errors)
+  for fn in ctx._cache.get("cleanup", []):
+    fn()
+  ok = not viol and not errors
+  return {"name": "twin-reformat-every-consulted-file", "rule": "*", "expect": "silent",
+          "outcome": "fired" if viol else ("error" if errors else "silent"), "ok": ok,
+          "detail": [f"{x.key}: {x.reason}"[:200] for x in viol[:3]] or [e[:200] for e in errors[:2]],
+          "files_reformatted": len(overlay)}
+
+
 def run_suite(prop, jobs=16):
   variants = []
   rules_dir = os.path.join(core.VERIF, "rules")
@@ -118,13 +146,15 @@ def run_suite(prop, jobs=16):
       mod = importlib.import_module(f"rules.{f[:-3]}")
       variants += list(getattr(mod, "VARIANTS", []))
   if not variants:
-    return {"variants": 0}
+    r = _reformat_twin(prop)
+    return {"variants": 1, "results": [r], "misses": [] if r["ok"] else [r]}
   work = [(prop, v) for v in variants]
   if len(work) > 2:
     with multiprocessing.get_context("fork").Pool(min(jobs, len(work))) as pool:
       results = pool.map(_run_one, work)
   else:
     results = [_run_one(w) for w in work]
+  results.append(_reformat_twin(prop))
   for r in results:
     if not r["ok"]:
       print(f"SELFTEST-MISS rule={r['rule']} variant={r['name']} "
